@@ -119,6 +119,8 @@ def step_oracle(cfg, s):
         cand = rows_of(np.asarray(cand)); mse = list(np.asarray(mse).ravel())
         sel = cfg["sel_t"] if kind == "ode" else cfg["sel_x"]
         rest = [m for k, m in enumerate(mse) if k not in idx]
+        if any(not (0 <= k < len(mse)) for k in idx):
+            return [f"step at {s['i']}: chosen indices {idx} do not all name one of the {len(mse)} candidates"]
         if len(idx) != sel or len(set(idx)) != sel or (rest and min(mse[k] for k in idx) < max(rest)):
             fails.append(f"step at {s['i']}: chosen candidates {idx} are not the {sel} largest squared residuals {mse}")
         for r in cand:
@@ -129,6 +131,8 @@ def step_oracle(cfg, s):
         ct, cx, mse, ti, xi = rec
         ct = rows_of(np.asarray(ct)); cx = rows_of(np.asarray(cx)); M = np.asarray(mse)
         flat = sorted(M.ravel().tolist(), reverse=True)
+        if any(not (0 <= a1 < M.shape[0]) for a1 in ti) or any(not (0 <= b1 < M.shape[1]) for b1 in xi):
+            return [f"step at {s['i']}: chosen indices (times {ti}, points {xi}) do not all name one of the {M.shape[0]} x {M.shape[1]} candidates"]
         for m, (a1, b1) in enumerate(zip(ti, xi)):
             if M[a1, b1] != flat[m]:
                 fails.append(f"step at {s['i']}: pair number {m} chosen (t#{a1}, x#{b1}) is not the {m}-th largest space-time pair")
